@@ -226,19 +226,20 @@ PSS = "shared::hybrid::ProofSearchState"
 THROUGH = ("branch", "ok_or", "ok_or_else", "unwrap", "expect", "map_err", "ok", "into", "from", "clone", "unwrap_or")
 
 
-def r5(R):
+def r5(R, rule="C08-R5", file_suffix="hybrid.rs", err_types=None, floor=5):
     prog = R.prog
     n = 0
+    ERRS = err_types or ERR_TYPES
     for b in sorted(prog.bodies.values(), key=lambda x: x.key):
-        if b.crate != "shared" or not b.file.endswith("hybrid.rs") or is_test(b) or b.is_closure:
+        if b.crate != "shared" or not b.file.endswith(file_suffix) or is_test(b) or b.is_closure:
             continue
         rt = b.local_ty(0)
-        if "Result<" not in rt or not any(e in rt for e in ERR_TYPES):
+        if "Result<" not in rt or not any(e in rt for e in ERRS):
             continue
         oks = {bb for bb, i, pl, rv, s in b.assigns() if pl["l"] == 0 and not pl["p"] and rv["rv"] == "aggregate" and rv.get("variant") == "Ok"}
         for c in b.calls():
             ty = b.local_ty(c.dest["l"]) if not c.dest["p"] else ""
-            if not ("Result<" in ty and any(e in ty for e in ERR_TYPES)):
+            if not ("Result<" in ty and any(e in ty for e in ERRS)):
                 continue
             n += 1
             R.saw(b)
@@ -249,11 +250,11 @@ def r5(R):
             bad = set()
             for e in edges:
                 bad |= b.reach_from([e]) & oks
-            R.ob("C08-R5", "propagates:%s:%s:%d" % (b.name, c.name(), _ordc(b, c)), "in %s a failure of %s never ends in an Ok return" % (b.name, c.name()),
+            R.ob(rule, "propagates:%s:%s:%d" % (b.name, c.name(), _ordc(b, c)), "in %s a failure of %s never ends in an Ok return" % (b.name, c.name()),
                  not bad, where=b.where(c.ln),
                  detail=None if not bad else "an Ok value is built on a path from the failure edge: the caller treats a partial result (e.g. the count "
                  "of only the proofs compiled before the deadline) as complete and publishes bounds that exclude the true probability")
-    R.floor("C08-R5", "budgeted steps inside Result-returning helpers", n, 5)
+    R.floor(rule, "budgeted steps inside Result-returning helpers", n, floor)
 
 
 def _value_call(b, op, depth=0):
